@@ -543,6 +543,23 @@ func EncodeParse(in []byte, b2 bool, initReach int, choose Chooser) ([]byte, Sta
 	return header(len(in), b2, c.w.out), st
 }
 
+// EncodeLiterals encodes every input byte as a literal (a legal parse of any input, in linear time). With a
+// skewed symbol distribution it drives the adaptive Huffman tree deeper than any LZ parse of ordinary data.
+func EncodeLiterals(in []byte, b2 bool) ([]byte, Stats) {
+	var st Stats
+	if len(in) == 0 {
+		return header(0, b2, nil), st
+	}
+	c := &coder{m: newModel()}
+	for _, b := range in {
+		c.encodeChar(int(b))
+		st.Literals++
+	}
+	c.w.flush()
+	st.Rebuilds, st.MaxDepth = c.m.Rebuilds, c.MaxDepth
+	return header(len(in), b2, c.w.out), st
+}
+
 // ---- decoder ----------------------------------------------------------------------------------
 
 var (
